@@ -918,7 +918,9 @@ func TestVF_C11(t *testing.T) {
 		{"13", []tls.SignatureScheme{tls.ECDSAWithP384AndSHA384, tls.Ed25519}, "no-scheme-for-a-p256-key"},
 		{"13", []tls.SignatureScheme{tls.ECDSAWithP256AndSHA256}, "control"},
 	}
-	vfBubbles(t, len(ccvs), func(t *testing.T, i int) { vfC11ClientCertVerifyScheme(t, res, ccvs[i].ver, ccvs[i].schemes, ccvs[i].tag) })
+	vfBubbles(t, len(ccvs), func(t *testing.T, i int) {
+		vfC11ClientCertVerifyScheme(t, res, ccvs[i].ver, ccvs[i].schemes, ccvs[i].tag)
+	})
 	res.Floor("negotiations_checked", int64(nc/10))
 	res.Floor("refused_incompatible", int64(nc/20))
 	res.Finish(t)
